@@ -5,13 +5,16 @@ package hx
 // coq/Model/Locks.v:
 //
 //	SAcq m R/W   the top-level pair  recv.m.RLock()/Lock(); defer recv.m.RUnlock()/Unlock()
+//	SLock m R/W  a top-level recv.m.RLock()/Lock() without defer; SUnlock m  a top-level explicit
+//	             recv.m.RUnlock()/Unlock(); SRet  after every top-level statement that contains a
+//	             return (or panic): the method may leave here, only deferred unlocks run
 //	SItems [...] for every other top-level statement, flow-insensitively, the accesses to fields
 //	             of the store (IAcc field R/W) and the calls to other methods of the store (ICall f)
 //	             that occur anywhere inside it
 //
 // Everything the translator does not recognise is an error (never a silent skip): mutex
-// operations that are not the top-level Lock/defer-Unlock pair, explicit Unlock calls, defer/go
-// statements elsewhere, closures, the receiver or one of its fields escaping (passed to a
+// operations below the top level of the method (inside if/for/...), a deferred unlock that does not
+// directly follow its lock, defer/go statements elsewhere, closures, the receiver or one of its fields escaping (passed to a
 // function, assigned, address taken), a shadowed receiver, unknown AST nodes.
 //
 // Fields: every field of struct MemoryStore of type sync.RWMutex / sync.Mutex is a mutex; every
@@ -35,9 +38,12 @@ type LItem struct {
 }
 
 type LStmt struct {
-	Acq   string  `json:"acq,omitempty"`
-	Mode  string  `json:"mode,omitempty"`
-	Items []LItem `json:"items,omitempty"`
+	Acq    string  `json:"acq,omitempty"`    // Lock/RLock followed by defer Unlock/RUnlock
+	Lock   string  `json:"lock,omitempty"`   // Lock/RLock at the top level without defer
+	Unlock string  `json:"unlock,omitempty"` // explicit Unlock/RUnlock at the top level
+	Ret    bool    `json:"ret,omitempty"`    // the method may return here
+	Mode   string  `json:"mode,omitempty"`
+	Items  []LItem `json:"items,omitempty"`
 }
 
 type LMethod struct {
@@ -406,6 +412,25 @@ func (tr *lockTr) stmt(s ast.Stmt) {
 	}
 }
 
+// mayReturn: the statement contains a return (or a call of panic) outside closures
+func mayReturn(s ast.Stmt) bool {
+	found := false
+	ast.Inspect(s, func(n ast.Node) bool {
+		switch x := n.(type) {
+		case *ast.FuncLit:
+			return false
+		case *ast.ReturnStmt:
+			found = true
+		case *ast.CallExpr:
+			if id, ok := x.Fun.(*ast.Ident); ok && id.Name == "panic" {
+				found = true
+			}
+		}
+		return !found
+	})
+	return found
+}
+
 func isSyncMutex(t ast.Expr) bool {
 	se, ok := t.(*ast.SelectorExpr)
 	if !ok {
@@ -530,7 +555,13 @@ func translateType(dir, typeName, prefix string) (*LockTable, error) {
 			return nil, fmt.Errorf("%s: no body", fd.Name.Name)
 		}
 		list := fd.Body.List
+		explicit := map[string]string{} // mutex locked without defer -> mode
 		for i := 0; i < len(list); i++ {
+			if ds, ok := list[i].(*ast.DeferStmt); ok {
+				if mu, op, ok := tr.mutexCall(ds.Call); ok {
+					return nil, fmt.Errorf("%s: %s: defer %s.%s() does not directly follow the matching Lock/RLock", fset.Position(ds.Pos()), fd.Name.Name, mu, op)
+				}
+			}
 			if es, ok := list[i].(*ast.ExprStmt); ok {
 				if mu, op, ok := tr.mutexCall(es.X); ok {
 					var mode, unlock string
@@ -539,23 +570,38 @@ func translateType(dir, typeName, prefix string) (*LockTable, error) {
 						mode, unlock = "W", "Unlock"
 					case "RLock":
 						mode, unlock = "R", "RUnlock"
+					case "Unlock", "RUnlock":
+						// explicit release at the top level of the method
+						want := map[string]string{"W": "Unlock", "R": "RUnlock"}[explicit[mu]]
+						if want != "" && want != op {
+							return nil, fmt.Errorf("%s: %s: %s.%s() releases a mutex that was locked in the other mode", fset.Position(es.Pos()), fd.Name.Name, mu, op)
+						}
+						delete(explicit, mu)
+						m.Body = append(m.Body, LStmt{Unlock: mu})
+						continue
 					default:
-						return nil, fmt.Errorf("%s: %s: %s.%s() is not part of the Lock/defer-Unlock pattern", fset.Position(es.Pos()), fd.Name.Name, mu, op)
+						return nil, fmt.Errorf("%s: %s: %s.%s() is not a mutex operation the translator knows", fset.Position(es.Pos()), fd.Name.Name, mu, op)
 					}
-					if i+1 >= len(list) {
-						return nil, fmt.Errorf("%s: %s: %s.%s() is not followed by defer %s.%s()", fset.Position(es.Pos()), fd.Name.Name, mu, op, mu, unlock)
+					deferred := false
+					if i+1 < len(list) {
+						if ds, ok := list[i+1].(*ast.DeferStmt); ok {
+							if mu2, op2, ok2 := tr.mutexCall(ds.Call); ok2 {
+								if mu2 != mu || op2 != unlock {
+									return nil, fmt.Errorf("%s: %s: %s.%s() is followed by defer %s.%s()", fset.Position(es.Pos()), fd.Name.Name, mu, op, mu2, op2)
+								}
+								deferred = true
+							}
+						}
 					}
-					ds, ok := list[i+1].(*ast.DeferStmt)
-					var mu2, op2 string
-					var ok2 bool
-					if ok {
-						mu2, op2, ok2 = tr.mutexCall(ds.Call)
+					if deferred {
+						m.Body = append(m.Body, LStmt{Acq: mu, Mode: mode})
+						i++
+					} else {
+						// no defer: the mutex stays held until an explicit top-level unlock; a return
+						// in between leaks it (the checker reports held-at-return)
+						explicit[mu] = mode
+						m.Body = append(m.Body, LStmt{Lock: mu, Mode: mode})
 					}
-					if !ok || !ok2 || mu2 != mu || op2 != unlock {
-						return nil, fmt.Errorf("%s: %s: %s.%s() is not followed by defer %s.%s()", fset.Position(es.Pos()), fd.Name.Name, mu, op, mu, unlock)
-					}
-					m.Body = append(m.Body, LStmt{Acq: mu, Mode: mode})
-					i++
 					continue
 				}
 			}
@@ -566,6 +612,9 @@ func translateType(dir, typeName, prefix string) (*LockTable, error) {
 			}
 			if len(tr.items) > 0 {
 				m.Body = append(m.Body, LStmt{Items: tr.items})
+			}
+			if mayReturn(list[i]) {
+				m.Body = append(m.Body, LStmt{Ret: true})
 			}
 		}
 		tab.Methods = append(tab.Methods, m)
@@ -589,6 +638,18 @@ func (t *LockTable) Coq() string {
 			}
 			if s.Acq != "" {
 				fmt.Fprintf(&b, "SAcq %s M%s", Q(s.Acq), s.Mode)
+				continue
+			}
+			if s.Lock != "" {
+				fmt.Fprintf(&b, "SLock %s M%s", Q(s.Lock), s.Mode)
+				continue
+			}
+			if s.Unlock != "" {
+				fmt.Fprintf(&b, "SUnlock %s", Q(s.Unlock))
+				continue
+			}
+			if s.Ret {
+				b.WriteString("SRet")
 				continue
 			}
 			b.WriteString("SItems [")
